@@ -47,7 +47,7 @@ WholeVariants == {1, 2, 3}
 Unterminated == {5}      \* no closing }}: literal text for GitHub, so only "a diagnostic at the scalar" is demanded
 ForeignKey == "verif-foreign-key"
 ForeignKeys == {ForeignKey, "<<"}      \* "<<" written plain is the YAML merge key (tag !!merge)
-AnyExpr == "${{ fromJSON('\"x\"') }}"      \* well-formed, statically of type any
+AnyExpr == "${{ fromJSON(format('{0}', 'x')) }}"   \* well formed, no context, statically of type any (argument not a literal)
 SensorText == "${{ a.. }}"
 
 \* raw matrix mappings are case-insensitive open mappings
